@@ -667,7 +667,7 @@ def n_r8_cookies(p: Project, rep: Report):
     if init is None:
         raise AnalysisError("OFXClient.__init__ not found")
     cfg = CFG(init)
-    sets = [n for n in cfg.nodes if isinstance(n.stmt, ast.Assign) and any(text(t) == "self.cookiejar" for t in n.stmt.targets)]
+    sets = [n for n in cfg.nodes if (isinstance(n.stmt, ast.Assign) and any(text(t) == "self.cookiejar" for t in n.stmt.targets)) or (isinstance(n.stmt, ast.AnnAssign) and n.stmt.value is not None and text(n.stmt.target) == "self.cookiejar")]
     ok = bool(sets) and cfg.must_pass_through([cfg.exit.id], [n.id for n in sets])
     rep.check("N-R8", "__init__:creates-jar-on-every-path", ok, "an instance can be constructed without its own cookie jar" if not ok else "", loc(p, init))
     for n in sets:
